@@ -4,6 +4,8 @@ import Driver.Util
 import Driver.C15
 import Driver.Codec
 import Driver.Engine
+import Driver.Place
+import Driver.Coord
 import Driver.Ckpt
 import Driver.Raft
 import Driver.Scan
@@ -30,5 +32,7 @@ def main (args : List String) : IO UInt32 := do
   | ["scan"] => loop Drv.Scan.step hin hout none; hout.flush; return 0
   | ["raft"] => loop Drv.Raft.step hin hout Drv.Raft.init; hout.flush; return 0
   | ["ckpt"] => loop Drv.Ckpt.step hin hout (); hout.flush; return 0
+  | ["place"] => loop Drv.Place.step hin hout (); hout.flush; return 0
+  | ["coord"] => loop Drv.Coord.step hin hout none; hout.flush; return 0
   | ["codec"] => loop Drv.Codec.step hin hout (); hout.flush; return 0
   | _ => IO.eprintln "usage: zvdriver <proto>"; return 2
